@@ -294,7 +294,7 @@ impl<CS: CLCiphersuite> ZKPoK<CL03<CS>> {
                 "unreaveled_message_indexes not valid with respect to the commitment_pk.g_bases!",
             );
             let cmi =
-                Commitment::<CL03<CS>>::commit_with_pk(&[mi.clone()], signer_pk, a_bases, None)
+                Commitment::<CL03<CS>>::commit_with_pk(messages, signer_pk, a_bases, Some(&[*i]))
                     .cl03Commitment()
                     .to_owned();
             let proof_mi = NISPSecrets::nisp2sec_generate_proof::<CS>(
